@@ -451,3 +451,19 @@ shape3_h!(sp_query3_right_chain, query_shape, 1, 4);
 shape3_h!(sp_query3_zigzag_lr, query_shape, 2, 4);
 shape3_h!(sp_query3_zigzag_rl, query_shape, 3, 4);
 shape3_h!(sp_query3_balanced, query_shape, 4, 4);
+
+// ---- consuming iteration (any mix of directions) of every 3-node shape
+fn iter_shape(k: u8) {
+    let mut t = new_tree_generic();
+    install(&mut t, shape3(k), 3);
+    let mut m = Model::new();
+    m.insert(0, 10);
+    m.insert(1, 11);
+    m.insert(2, 12);
+    q_iter(t, &m);
+}
+shape3_h!(sp_iter3_left_chain, iter_shape, 0, 4);
+shape3_h!(sp_iter3_right_chain, iter_shape, 1, 4);
+shape3_h!(sp_iter3_zigzag_lr, iter_shape, 2, 4);
+shape3_h!(sp_iter3_zigzag_rl, iter_shape, 3, 4);
+shape3_h!(sp_iter3_balanced, iter_shape, 4, 4);
